@@ -7,12 +7,38 @@ package main
 
 import (
 	"fmt"
+	"go/ast"
 	"strconv"
 	"strings"
 )
 
 func init() {
 	extraEngines["C16"] = append(extraEngines["C16"], c16Lemmas)
+	pkgInvCensus["primes"] = censusPrimesInit
+}
+
+// censusPrimesInit establishes primesWF(): bigIntPrimes is initialised by a composite literal of
+// big.NewInt(<integer literal>) calls (the table the contracts read with tableInt / tableLen) and
+// zero by big.NewInt(0).
+func censusPrimesInit(w *World, r *Report) []*Obligation {
+	pkg := w.ModPath + "/util"
+	_, err := w.intTable(pkg, "bigIntPrimes")
+	detail := ""
+	if err != nil {
+		detail = err.Error()
+	}
+	out := []*Obligation{censusObl("C16", "C16/util.bigIntPrimes/literal#1", "census", "v3/util/primes.go", "bigIntPrimes is a composite literal of big.NewInt(<integer literal>) calls", err == nil, detail)}
+	zi, _ := w.findVarInit(pkg, "zero")
+	okZ := false
+	if call, ok := zi.(*ast.CallExpr); ok && len(call.Args) == 1 {
+		if se, ok := call.Fun.(*ast.SelectorExpr); ok && se.Sel.Name == "NewInt" {
+			if bl, ok := call.Args[0].(*ast.BasicLit); ok && bl.Value == "0" {
+				okZ = true
+			}
+		}
+	}
+	out = append(out, censusObl("C16", "C16/util.zero/literal#1", "census", "v3/util/primes.go", "zero is initialised by big.NewInt(0)", okZ, "zero is not big.NewInt(0)"))
+	return out
 }
 
 func c16Lemmas(w *World, r *Report) []*Obligation {
